@@ -180,7 +180,16 @@ def c06_r1(ctx):
     lists = [norm.canon(c.args[0]) for c in norm.calls_in(ms.node) if norm.call_name(c) == "MultiPerDocumentReader" and c.args]
     own = [c for c in norm.calls_in(ms.node) if norm.call_name(c) in ("insert", "append") and
            norm.canon(norm.receiver(c)) in lists and "self.per_document_reader()" in norm.canon(c)]
-    ctx.ob(ms, len(own) == 1 and norm.call_name(own[0]) == "insert" and norm.canon(own[0].args[0]) == "0",
+    # second spelling: the list is written out at the call, [self.per_document_reader()] + <the sub-writers' readers>
+    head_first = False
+    for c in norm.calls_in(ms.node):
+        if norm.call_name(c) == "MultiPerDocumentReader" and c.args:
+            a0 = norm.inline_defs(c.args[0], ms.node)
+            while isinstance(a0, ast.BinOp) and isinstance(a0.op, ast.Add):
+                a0 = a0.left
+            if isinstance(a0, ast.List) and a0.elts and norm.canon(a0.elts[0]) == "self.per_document_reader()" and not own:
+                head_first = True
+    ctx.ob(ms, (len(own) == 1 and norm.call_name(own[0]) == "insert" and norm.canon(own[0].args[0]) == "0") or head_first,
            "the parent writer's per-document reader is placed first (its documents have the lowest numbers)",
            detail=str([D.text(c) for c in own]))
     rr = prog.method("multiproc.MpWriter", "_read_and_renumber_run", inherited=False)
@@ -188,6 +197,22 @@ def c06_r1(ctx):
     gens = [n for n in ast.walk(rr.node) if isinstance(n, ast.GeneratorExp)]
     ok = len(gens) == 1 and E.eq(gens[0].elt, "(fname, text, (docnum + offset), weight, value)") and \
         E.eq(gens[0].generators[0].target, "(fname, text, docnum, weight, value)")
+    if not gens:
+        # the same generator written as a generator function of the class that the method returns: for <targets> in <run>: yield <tuple>
+        for c in norm.calls_in(rr.node):
+            h = prog.lookup(rr.cls, c.func.attr) if isinstance(c.func, ast.Attribute) and norm.canon(c.func.value) in ("self", "cls", rr.cls.name) else None
+            if h is None or h is rr:
+                continue
+            loops = [n for n in h.node.body if isinstance(n, ast.For)]
+            if len(loops) == 1 and len(h.node.body) == 1 + (1 if ast.get_docstring(h.node) else 0) and len(loops[0].body) == 1 and \
+                    isinstance(loops[0].body[0], ast.Expr) and isinstance(loops[0].body[0].value, ast.Yield):
+                hp = [p_ for p_ in h.params if p_ not in ("self", "cls")]
+                amap = dict(zip(hp, [norm.canon(a) for a in c.args]))
+                H = pm.Alpha(h)
+                offname = [k for k, v in amap.items() if v == "offset"]
+                ok = len(offname) == 1 and H.eq(loops[0].body[0].value.value, "(fname, text, (docnum + %s), weight, value)" % offname[0]) and \
+                    H.eq(loops[0].target, "(fname, text, docnum, weight, value)")
+                ctx.saw(h)
     ctx.ob(rr, ok, "runs are renumbered by adding the offset to the docnum element only",
            detail=str([norm.canon(g.elt) for g in gens]))
 
